@@ -343,6 +343,24 @@ def run_case(case):
             same_dataframe(farmer_now.full_df, a, "sampler full_df vs file")
         require(not os.path.exists(crops.crop_dir(main, "c6")),
                 "crop-not-cleaned", "crop directory left after reap")
+        # ---- a second crop at the same location, same process, with a
+        # tweaked function: it must be grown with the NEW function
+        if case.get("second_round") and farmer_kind == "runner" and \
+                case["mode"] == "combos":
+            r2, spec2, _, _, _ = build_runner(x, desc, epoch=1)
+            with under_test("second crop at the same location"):
+                c2 = r2.Crop(name="c6", parent_dir=main, **bkw)
+                c2.sow_combos(combos, verbosity=0)
+                if case.get("reload_before_grow"):
+                    c2 = x.Crop(name="c6", parent_dir=main)
+                c2.grow_missing()
+                got2 = c2.reap()
+            labelled.check_dataset(
+                got2, spec=spec2, fn_args=fn_args, coords=coords,
+                requested=None, fn_kwargs_extra=extra, constants=consts,
+                resources=desc["resources"], attrs=desc["attrs"],
+                var_coords=var_coords, explicit_names=False,
+                tag="second crop (tweaked function)")
 
     dim_const = any(h == "constant" for h in desc["dim_coords"].values())
     nt = dim_const or bool(desc["resources"]) or reloaded or \
@@ -405,6 +423,7 @@ def strategy(draw):
                            "drop": draw(st.integers(0, 2)),
                            "by_farmer": draw(st.booleans())}
         case["between"] = draw(st.sampled_from([False, True]))
+    case["second_round"] = draw(st.booleans())
     return case
 
 
